@@ -52,8 +52,10 @@ Shapes ==
     S11 |-> [fields |-> <<[n |-> "ubase", emb |-> "Base"], [n |-> "K", v |-> VI(21)]>>, methods |-> {}],
     \* a struct with many fields: Y at position 130, Base embedded at position 131 (W promoted from there; X is also a direct field)
     S12 |-> [fields |-> <<[n |-> "X", v |-> VI(41)]>> \o [i \in 1..128 |-> [n |-> "Fill", v |-> VI(i)]] \o <<[n |-> "Y", v |-> VS(<<52>>)], [n |-> "Base", emb |-> "Base"]>>, methods |-> {}],
+    \* a field whose name is not ASCII (the harness spells "Uelan" as E-acute l a n; maps have the key e-acute l a n, "uelan")
+    S13 |-> [fields |-> <<[n |-> "Uelan", v |-> VS(<<101>>)], [n |-> "X", v |-> VI(17)]>>, methods |-> {}],
     S9 |-> [fields |-> <<[n |-> "X", v |-> VI(91)]>>, methods |-> {[n |-> "Cust", v |-> [t |-> "embedded", sh |-> "Base"], ptr |-> TRUE]}] ]
-ShapeNames == {"S1", "S2", "S3", "S4", "S5", "S6", "S7", "S10", "S11", "S12"}
+ShapeNames == {"S1", "S2", "S3", "S4", "S5", "S6", "S7", "S10", "S11", "S12", "S13"}
 MapKinds == {"any", "mss", "msi", "mii"}        \* mii: map[interface{}]interface{}
 \* objects: a struct value, a pointer to it, or a map of one of three Go map types
 Objects == {[k |-> "struct", sh |-> sn, ptr |-> p, embnil |-> FALSE] : sn \in ShapeNames, p \in BOOLEAN}
@@ -62,8 +64,9 @@ Objects == {[k |-> "struct", sh |-> sn, ptr |-> p, embnil |-> FALSE] : sn \in Sh
            \cup {[k |-> "map", g |-> g] : g \in MapKinds}
            \cup {[k |-> "map", g |-> g, ptr |-> TRUE] : g \in {"any", "mss"}}        \* a pointer to a map
 \* (the untyped map also has the keys "0" and "" -- never looked up themselves: an absent key must not fall back to them)
-MapVal(g, n) == CASE n = "X" -> (IF g = "mss" THEN VS(<<120>>) ELSE VI(8)) [] n = "Y" -> (IF g = "mss" THEN VS(<<121>>) ELSE VI(9)) [] OTHER -> Null
-AttrNames == {"X", "Y", "Z", "W", "Q", "K", "Name", "PName", "AName", "ARename", "hidden", "nosuch", "x", "name", "Cust", "V", "U"} \cap NameSet    \* names are case-sensitive
+MapVal(g, n) == CASE n = "X" -> (IF g = "mss" THEN VS(<<120>>) ELSE VI(8)) [] n = "Y" -> (IF g = "mss" THEN VS(<<121>>) ELSE VI(9))
+                    [] n = "uelan" -> (IF g = "mss" THEN VS(<<117>>) ELSE VI(3)) [] OTHER -> Null
+AttrNames == {"X", "Y", "Z", "W", "Q", "K", "Name", "PName", "AName", "ARename", "hidden", "nosuch", "x", "name", "Cust", "V", "U", "Uelan", "uelan"} \cap NameSet    \* names are case-sensitive
 
 IsExported(n) == n \notin {"hidden"}
 
